@@ -58,6 +58,18 @@ func newSignalHandler() *signalHandler {
 func (o *signalHandler) addSignalUser(userID uint64, signalID, messageID uint32,
 	from Channel) error {
 
+	// refuse a user id which is already registered before creating
+	// the disconnection handler (removing a handler from here would
+	// run its closer, which calls removeSignalUser again).
+	o.signalsMutex.RLock()
+	for _, user := range o.signals {
+		if user.userID == userID {
+			o.signalsMutex.RUnlock()
+			return fmt.Errorf("user %d already exists", userID)
+		}
+	}
+	o.signalsMutex.RUnlock()
+
 	newUser := signalUser{
 		signalID:  signalID,
 		messageID: messageID,
